@@ -54,6 +54,8 @@ type entry struct {
 	firs   []string // Coq terms, parallel to sfields
 	nirs   []string // parallel to snodes
 	trefs  []string // Coq terms (schema type id, [ids the emitted qualified names resolve to])
+	drefs  []string // Coq terms (kind, ((slot, default bytes) of the schema, (slot, default bytes) emitted))
+	tableOK bool    // the main file's table is complete (the package can be linked into the dynamic driver)
 	repo   string
 	pkgDir string // directory (relative to work) holding the emitted package
 	pkg    string // Go package name
@@ -63,7 +65,7 @@ type entry struct {
 // schema ids are registered by the library's own std packages (schemas.Register panics on the
 // second registration); they take part in the static check and the compile check only.
 func (e *entry) linked() bool {
-	return e.rep.Translated && e.rep.Compiles == "yes" && len(e.table.Nodes) > 0 && e.source != "std"
+	return e.tableOK && e.rep.Compiles == "yes" && len(e.table.Nodes) > 0 && e.source != "std"
 }
 
 func must(err error) {
@@ -100,6 +102,7 @@ func main() {
 	entries = append(entries, stdEntries(repoAbs)...)
 	entries = append(entries, randomEntries(*seed, *count)...)
 	entries = append(entries, boundaryEntries()...)
+	entries = append(entries, sharedSlotEntries()...)
 	entries = append(entries, probeEntries()...)
 	entries = append(entries, multiFileEntries()...)
 	for _, e := range entries {
@@ -354,37 +357,48 @@ func translate(e *entry, genDir string) {
 			e.rep.TransErr = err.Error()
 			return
 		}
+		// an accessor genir does not understand is an error of the entry (fail closed: the entry is
+		// left out of the static lists and reported), but the walk goes on so that the table stays
+		// complete and the package can still be run by the dynamic driver
+		fail := func(err error) {
+			if e.rep.TransErr == "" {
+				e.rep.TransErr = err.Error()
+			}
+		}
 		for _, f := range t.Fields {
 			ir, err := g.fieldIR(f)
 			if err != nil {
-				e.rep.TransErr = err.Error()
-				return
+				fail(err)
 			}
 			e.firs = append(e.firs, ir)
 			if f.TypeID != 0 {
 				tr, err := g.fieldTypeRefs(f, res)
 				if err != nil {
-					e.rep.TransErr = err.Error()
-					return
+					fail(err)
 				}
 				if tr != "" {
 					e.trefs = append(e.trefs, fmt.Sprintf("  (* %s %s.%s *) %s", e.name, f.Type, f.Name, tr))
 				}
 			}
+			drs, err := g.defRefs(f)
+			if err != nil {
+				fail(err)
+			}
+			for _, dr := range drs {
+				e.drefs = append(e.drefs, fmt.Sprintf("  (* %s %s.%s *) %s", e.name, f.Type, f.Name, dr))
+			}
 		}
 		for _, n := range t.Nodes {
 			ir, err := g.nodeIR(n)
 			if err != nil {
-				e.rep.TransErr = err.Error()
-				return
+				fail(err)
 			}
 			e.nirs = append(e.nirs, ir)
 		}
 		for _, ifc := range t.Ifaces {
 			trs, err := g.ifaceTypeRefs(ifc, res)
 			if err != nil {
-				e.rep.TransErr = err.Error()
-				return
+				fail(err)
 			}
 			for _, tr := range trs {
 				e.trefs = append(e.trefs, fmt.Sprintf("  (* %s interface %s *) %s", e.name, ifc.Type, tr))
@@ -397,7 +411,8 @@ func translate(e *entry, genDir string) {
 			e.table.Nodes = append(e.table.Nodes, t.Nodes...)
 		}
 	}
-	e.rep.Translated = true
+	e.tableOK = true
+	e.rep.Translated = e.rep.TransErr == ""
 	e.rep.Fields = len(e.sfields)
 	e.rep.Nodes = len(e.snodes)
 }
@@ -469,7 +484,23 @@ func writeCoq(path string, entries []*entry) error {
 	b.WriteString("(* (type id the schema gives a field / method, node ids of the X_TypeID constants that the qualified Go\n" +
 		"   names used by the emitted getter, setter, NewX, constructors / method signatures resolve to through the\n" +
 		"   emitted import block) *)\n")
-	b.WriteString("Definition typerefs : list (Z * list Z) := [\n" + strings.Join(tl, ";\n") + "\n].\n")
+	b.WriteString("Definition typerefs : list (Z * list Z) := [\n" + strings.Join(tl, ";\n") + "\n].\n\n")
+	var dl []string
+	seenD := map[string]bool{}
+	for _, e := range entries {
+		if !e.rep.Translated {
+			continue
+		}
+		for _, t := range e.drefs {
+			if !seenD[t] {
+				seenD[t] = true
+				dl = append(dl, t)
+			}
+		}
+	}
+	b.WriteString("(* pointer defaults: (0 = pipelined accessor X_Future.F(), 1 = getter; ((pointer slot, default message bytes) the\n" +
+		"   schema gives the field, (slot, bytes of the static data slice) the emitted accessor names)) *)\n")
+	b.WriteString("Definition defrefs : list (Z * ((Z * list Z) * (Z * list Z))) := [\n" + strings.Join(dl, ";\n") + "\n].\n")
 	old, _ := os.ReadFile(path)
 	if bytes.Equal(old, b.Bytes()) {
 		return nil
@@ -514,6 +545,7 @@ func writeDriver(genDir string, entries []*entry, gobin string) error {
 		fmt.Fprintf(&imp, "\tp%d \"c15gen/%s\"\n", k, e.pkgDir)
 		for _, n := range e.table.Nodes {
 			fmt.Fprintf(&reg, "\treg(%q, %q, reflect.TypeOf(p%d.%s{}))\n", e.name, n.Type, k, n.Type)
+			fmt.Fprintf(&reg, "\treg(%q, %q, reflect.TypeOf(p%d.%s_Future{}))\n", e.name, n.Type+"_Future", k, n.Type)
 			if !n.IsGroup {
 				fmt.Fprintf(&reg, "\tregNew(%q, %q, func(s *capnp.Segment) (interface{}, error) { return p%d.New%s(s) })\n", e.name, n.Type, k, n.Type)
 			}
